@@ -1,9 +1,9 @@
 package main
 
 import (
-	"go/types"
-	"go/token"
 	"fmt"
+	"go/token"
+	"go/types"
 	"regexp"
 	"sort"
 	"strings"
@@ -409,7 +409,7 @@ func propC07(c *Ctx, r *Report) {
 			}
 			if typePath(unwrapConv(a[1])) != "fat2.TypedAddressAmountTuple.Amount" {
 				// valuation of a balance (snapshot payouts): one rate map, source = rates[i] twice, destination = rates[k] twice
-				same := unwrap(lks[0].X) == unwrap(lks[1].X) && unwrap(lks[1].X) == unwrap(lks[2].X) && unwrap(lks[2].X) == unwrap(lks[3].X)
+				same := sameVarValue(lks[0].X, lks[1].X) && sameVarValue(lks[1].X, lks[2].X) && sameVarValue(lks[2].X, lks[3].X)
 				if !same || lks[0].Index != lks[1].Index || !sameConstOrValue(lks[2].Index, lks[3].Index) {
 					bad = append(bad, "a valuation must read source rate and average, destination rate and average pairwise from the same entry of one map")
 				}
@@ -425,8 +425,7 @@ func propC07(c *Ctx, r *Report) {
 				}
 				roots = append(roots, elemRoots(lks[i].Index)...)
 			}
-			rm, am := unwrap(lks[0].X), unwrap(lks[1].X)
-			if unwrap(lks[2].X) != rm || unwrap(lks[3].X) != am {
+			if !sameVarValue(lks[2].X, lks[0].X) || !sameVarValue(lks[3].X, lks[1].X) {
 				bad = append(bad, "source and destination are read from different maps")
 			}
 			ro, ao := mapOrigins(lks[0].X), mapOrigins(lks[1].X)
@@ -698,4 +697,39 @@ func callsInBlock(b *ssa.BasicBlock) []ssa.CallInstruction {
 		}
 	}
 	return out
+}
+
+// sameVarValue: a and b are the same SSA value, or loads of the same variable (a captured variable of a closure, a
+// local spilled to memory) that nothing in the function stores to between definition and use.
+func sameVarValue(a, b ssa.Value) bool {
+	a, b = unwrap(a), unwrap(b)
+	if a == b {
+		return true
+	}
+	ua, ok1 := a.(*ssa.UnOp)
+	ub, ok2 := b.(*ssa.UnOp)
+	if !ok1 || !ok2 || ua.Op != token.MUL || ub.Op != token.MUL || ua.X != ub.X {
+		return false
+	}
+	switch x := ua.X.(type) {
+	case *ssa.FreeVar:
+		stored := false
+		allInstrs(x.Parent(), func(ins ssa.Instruction) {
+			if st, ok := ins.(*ssa.Store); ok && st.Addr == ssa.Value(x) {
+				stored = true
+			}
+		})
+		return !stored
+	case *ssa.Alloc:
+		n := 0
+		if x.Referrers() != nil {
+			for _, rf := range *x.Referrers() {
+				if st, ok := rf.(*ssa.Store); ok && st.Addr == ssa.Value(x) {
+					n++
+				}
+			}
+		}
+		return n <= 1
+	}
+	return false
 }
